@@ -848,3 +848,133 @@ End Partial.
 Lemma part_eq_key v : v_intv_guard v = true ->
   forall p q : part R, part_eqt v p q = TT -> @part_key R p = @part_key R q.
 Proof. intros Hg p q E. apply (part_eqt_TT v Hg) in E. subst. reflexivity. Qed.
+
+(* ------------------------------------------------------------ hash consistency, generalised:
+   for any variant with the ndim guard and any class [okw] of weightings on which equal
+   weightings have equal keys *)
+Section HashConsistencyGen.
+Variable v : variants.
+Hypothesis Hg : v_intv_guard v = true.
+Variable okw : weighting R -> bool.
+Hypothesis Hw : forall a b, okw a = true -> okw b = true -> w_eqb a b = true -> w_key v a = w_key v b.
+Notation eqR := (@eqt R Num_R v).
+Notation keqR := (@key_eqv R Num_R).
+Notation hk := (@hash_key R Num_R v).
+
+(* every weighting inside the object is in the class *)
+Fixpoint weights_ok (a : obj R) : bool :=
+  match a with
+  | OCart l | OUnion l | OInter l => forallb weights_ok l
+  | OTensor t => okw (ts_w t)
+  | ODiscr _ t => okw (ts_w t)
+  | OProd l w _ => okw w && forallb weights_ok l
+  | _ => true
+  end.
+
+Lemma tsp_eqb_key_gen (a b : tsp R) : okw (ts_w a) = true -> okw (ts_w b) = true ->
+  tsp_eqb a b = true -> tsp_key v a = tsp_key v b.
+Proof.
+  unfold tsp_eqb, tsp_key. rewrite !andb_true_iff, Zs_eqb_eq, dtype_eqb_eq.
+  intros Ha Hb [[-> ->] E]. rewrite (Hw _ _ Ha Hb E). reflexivity.
+Qed.
+
+Definition P (x : obj R) : Prop :=
+  forall y, weights_ok x = true -> weights_ok y = true -> eqR x y = TT -> keqR (hk x) (hk y) = true.
+
+Lemma tupt_keys_gen (l1 : list (obj R)) : Forall P l1 ->
+  forall l2, forallb weights_ok l1 = true -> forallb weights_ok l2 = true ->
+  tupt eqR l1 l2 = TT -> all2 keqR (map hk l1) (map hk l2) = true.
+Proof.
+  induction 1 as [|x l1 Hx Hl IH]; intros [|y l2] H1 H2; cbn [tupt map all2]; try discriminate; auto.
+  cbn in H1, H2. apply andb_true_iff in H1 as [H1a H1b], H2 as [H2a H2b].
+  destruct (eqR x y) eqn:E; try discriminate. intro E2. rewrite (Hx _ H1a H2a E). apply IH; assumption.
+Qed.
+Lemma zipt_keys_gen (l1 : list (obj R)) : Forall P l1 ->
+  forall l2, forallb weights_ok l1 = true -> forallb weights_ok l2 = true -> length l1 = length l2 ->
+  zipt eqR l1 l2 = TT -> all2 keqR (map hk l1) (map hk l2) = true.
+Proof.
+  induction 1 as [|x l1 Hx Hl IH]; intros [|y l2] H1 H2 L; cbn [zipt map all2 length] in *; try discriminate; auto.
+  apply andb_true_iff in H1 as [H1a H1b], H2 as [H2a H2b].
+  destruct (eqR x y) eqn:E; try discriminate. intro E2. rewrite (Hx _ H1a H2a E). apply IH; auto.
+Qed.
+Lemma setlike_keys_gen (l1 l2 : list (obj R)) : Forall P l1 ->
+  forallb weights_ok l1 = true -> forallb weights_ok l2 = true ->
+  setlike_eqt v l1 l2 = TT -> kset_eqv (map hk l1) (map hk l2) = true.
+Proof.
+  intros IH H1 H2. rewrite Forall_forall in IH. rewrite forallb_forall in H1, H2.
+  rewrite (setlike_TT v Hg). intros [A1 A2].
+  unfold kset_eqv. apply andb_true_iff; split; apply forallb_forall; intros k Hk;
+    apply in_map_iff in Hk; destruct Hk as [x [<- Hx]]; apply existsb_exists.
+  - destruct (A1 x Hx) as [t [Ht E]]. exists (hk t); split; [apply in_map, Ht | apply IH; auto].
+  - destruct (A2 x Hx) as [s [Hs E]]. exists (hk s); split; [apply in_map, Hs | apply IH; auto].
+Qed.
+
+Theorem eqt_hash_key_gen : forall a : obj R, P a.
+Proof.
+  unfold P.
+  induction a as [| |n| | | |l IH|l IH|l IH|els|e|g|t|p t|l w f IH] using obj_ind'; intros b Ha Hb;
+    destruct b; try (cbn; discriminate); try (cbn; reflexivity).
+  - cbn [eqt]. rewrite tri_of_TT, Z.eqb_eq. intros ->. apply key_eqv_refl.
+  - rewrite eqt_cart. intro E. cbn [hash_key]. rewrite key_eqv_tup. cbn [all2].
+    rewrite key_eqv_tup, (tupt_keys_gen _ IH _ Ha Hb E). reflexivity.
+  - rewrite eqt_union. intro E. cbn [hash_key]. rewrite key_eqv_tup. cbn [all2].
+    rewrite key_eqv_set, (setlike_keys_gen _ _ IH Ha Hb E). reflexivity.
+  - rewrite eqt_inter. intro E. cbn [hash_key]. rewrite key_eqv_tup. cbn [all2].
+    rewrite key_eqv_set, (setlike_keys_gen _ _ IH Ha Hb E). reflexivity.
+  - cbn [eqt]. rewrite tri_of_TT, finite_TT. intro E. cbn [hash_key]. rewrite key_eqv_tup. cbn [all2].
+    rewrite key_eqv_set.
+    assert (K : kset_eqv (map atom_key els) (map atom_key els0) = true).
+    { unfold kset_eqv. apply andb_true_iff; split; apply forallb_forall; intros k Hk;
+      apply in_map_iff in Hk; destruct Hk as [x [<- Hx]]; apply existsb_exists;
+      exists (atom_key x); (split; [apply in_map, E, Hx | apply key_eqv_refl]). }
+    rewrite K. reflexivity.
+  - cbn [eqt]. rewrite (intv_eqt_TT v Hg). intro E; inversion E; subst. apply key_eqv_refl.
+  - cbn [eqt]. rewrite tri_of_TT, grid_eqb_eq. intros ->. apply key_eqv_refl.
+  - cbn [eqt]. rewrite tri_of_TT. intro E. cbn [hash_key]. cbn in Ha, Hb.
+    rewrite (tsp_eqb_key_gen _ _ Ha Hb E). apply key_eqv_refl.
+  - cbn [eqt]. rewrite !andt_TT, !tri_of_TT, (part_eqt_TT v Hg), andb_true_iff, Zs_eqb_eq, dtype_eqb_eq.
+    intros [[A1 A2] [A3 A4]]. cbn [hash_key]. cbn in Ha, Hb.
+    rewrite A1, A2, (tsp_eqb_key_gen _ _ Hb Ha A3), A4. apply key_eqv_refl.
+  - rewrite eqt_prod. cbn [weights_ok] in Ha, Hb. apply andb_true_iff in Ha as [Ha1 Ha2], Hb as [Hb1 Hb2].
+    destruct (Nat.eqb (length l) (length l0)) eqn:L1; [|discriminate]. cbn [negb].
+    destruct (w_eqb w w0) eqn:W1; [|discriminate]. cbn [negb]. intro E.
+    apply Nat.eqb_eq in L1. cbn [hash_key]. rewrite key_eqv_tup. cbn [all2].
+    rewrite key_eqv_tup, (zipt_keys_gen _ IH _ Ha2 Hb2 L1 E), (Hw _ _ Ha1 Hb1 W1), !key_eqv_refl. reflexivity.
+Qed.
+End HashConsistencyGen.
+
+(* instance for the CURRENT array-weighting hash: no ProductSpaceArrayWeighting inside *)
+Definition no_ps_array (w : weighting R) : bool :=
+  match w with WArray KPs _ _ => false | _ => true end.
+
+Lemma w_key_current_ok (a b : weighting R) : no_ps_array a = true -> no_ps_array b = true ->
+  w_eqb a b = true -> w_key current_variants a = w_key current_variants b.
+Proof.
+  intros Ha Hb E. unfold w_eqb in E. apply andb_true_iff in E as [Ee E]. apply expo_eqb_eq in Ee.
+  destruct a as [k c e|k i e|k f|k f|k f|i e], b as [k' c' e'|k' i' e'|k' f'|k' f'|k' f'|i' e'];
+    try discriminate; cbn in Ee.
+  - apply neqb_R in E. subst. reflexivity.
+  - apply Z.eqb_eq in E. subst. destruct k, k'; try discriminate. reflexivity.
+  - apply Z.eqb_eq in E. subst. reflexivity.
+  - apply Z.eqb_eq in E. subst. reflexivity.
+  - apply Z.eqb_eq in E. subst. reflexivity.
+  - apply Z.eqb_eq in E. subst. reflexivity.
+Qed.
+
+Definition guard_only : variants := {| v_intv_guard := true; v_arrw_hash_type := true |}.
+
+Lemma hash_key_guard_indep : forall a : obj R, @hash_key R _ current_variants a = @hash_key R _ guard_only a.
+Proof. intro a. reflexivity. Qed.
+
+(* CURRENT code, partial: one ndim everywhere and no product-space array weighting:
+   a == b implies equal hashes *)
+Theorem current_hash_partial n (a b : obj R) :
+  ndims_ok n a = true -> ndims_ok n b = true ->
+  weights_ok no_ps_array a = true -> weights_ok no_ps_array b = true ->
+  @eqt R _ current_variants a b = TT ->
+  @key_eqv R _ (hash_key current_variants a) (hash_key current_variants b) = true.
+Proof.
+  intros Na Nb Wa Wb E. rewrite (eqt_variant_indep n current_variants guard_only) in E by assumption.
+  rewrite !hash_key_guard_indep.
+  apply (eqt_hash_key_gen guard_only eq_refl no_ps_array w_key_current_ok); assumption.
+Qed.
